@@ -353,6 +353,30 @@ ALL_KINDS = ['u32', 'u16', 'u8', 'bool', 'mut_u32', 'wild', 'tup', 'n1', 'n2', '
              'mutref', 'tok', 'arr', 'raw', 'fname', 'atpat']
 
 
+def block_scope_program(pid):
+    src = PRELUDE + '''
+pub fn rate(deps: &impl HasId, rate: u32, q0: u32) -> u64 {
+    rt::trace(9, 0, rt::addr(deps), 2, [rate as u64, q0 as u64, 0, 0, 0, 0]);
+    1000
+}
+'''
+    h = f'{pid}_h_block'
+    src += (f'#[cfg(kani)]\n#[kani::proof]\n#[kani::unwind(4)]\nfn {h}() {{\n'
+            '    #[::entrait::entrait(Rate)]\n'
+            '    fn rate(deps: &impl HasId, rate: u32, q0: u32) -> u64 {\n'
+            '        rt::trace(1, 0, rt::addr(deps), 2, [rate as u64, q0 as u64, 0, 0, 0, 0]);\n'
+            '        rt::mix(rt::mix(deps.id() as u64, rate as u64), q0 as u64)\n    }\n'
+            '    let app = Impl::new(App { id: kani::any(), tag: 0 });\n    let a: u32 = kani::any(); let b: u32 = kani::any();\n'
+            '    rt::reset();\n    let via = app.rate(a, b);\n'
+            '    assert!(rt::count() == 1, "exactly one call"); let e = rt::ev(0);\n'
+            '    assert!(e.fn_id == 1, "the entraited (block-local) function is reached, not a module-level fn of the same name");\n'
+            '    assert!(e.deps == rt::addr(&app), "receiver is the dependency");\n'
+            '    assert!(e.args[0] == a as u64 && e.args[1] == b as u64, "arguments in declared order");\n'
+            '    rt::reset();\n    let dir = rate(&app, a, b);\n    assert!(via == dir, "result equals the direct call");\n'
+            '    kani::cover!(true);\n}\n')
+    return Program(pid, 'fn in a block scope with a parameter spelled like the fn and a same-named module-level fn', src, [h], ['C01'])
+
+
 def c01_corpus(tier, seed):
     rnd = random.Random(seed)
     progs = []
@@ -385,6 +409,9 @@ def c01_corpus(tier, seed):
         progs.append(single_fn_program(pid(), FnSpec('f1', 'impl', [P('u32'), P('fname'), P(kind)])))
     progs.append(single_fn_program(pid(), FnSpec('f1', 'nodeps', [P('tup'), P('fname')]), opts='no_deps'))
     progs.append(module_program(pid(), [FnSpec('fa', 'gen', [P('n1'), P('fname')], fn_id=1), FnSpec('fb', 'gen', [P('fname'), P('wild')], fn_id=2)]))
+    # an entraited fn declared in a block scope (fn body), a parameter spelled like the fn, and a module-level fn of the same name
+    # and signature: the method must reach the local fn (`self::name` would reach the other one)
+    progs.append(block_scope_program(pid()))
     # generic extra type param
     f = FnSpec('f1', 'gen', [P('gen'), P('gen')], extra_generic='T: Copy + Into<u64>')
     progs.append(single_fn_program(pid(), f))
